@@ -45,6 +45,8 @@ func init() {
 			// composition: Marshal/Builder must not hand out memory that is recycled
 			obs = append(obs, c.Pools("net/packet")...)
 			obs = append(obs, c.VarLen()...)
+			obs = append(obs, c.BitFields("net/packet")...)
+			obs = append(obs, c.CountingWrappers("net/packet")...)
 			return obs
 		},
 	}
@@ -76,6 +78,7 @@ func init() {
 			in := c.reachFromTypes("level", tnames, "NewStatesPaletteContainerWithData", "NewBiomesPaletteContainerWithData")
 			obs = append(obs, c.TLGObs(in, in, false)...)
 			obs = append(obs, c.PaletteResizeCopiesAll()...)
+			obs = append(obs, c.PaletteReadResets()...)
 			obs = append(obs, c.PaletteConfig()...)
 			obs = append(obs, c.BitStorageFixSibling()...)
 			return obs
@@ -94,6 +97,9 @@ func init() {
 			obs = append(obs, c.HeightMapKeys()...)
 			obs = append(obs, c.PaletteResizeCopiesAll()...)
 			obs = append(obs, c.LoopDecodeTargets("level", "save")...)
+			obs = append(obs, c.HeightMapNetwork()...)
+			obs = append(obs, c.BitFields("level")...)
+			obs = append(obs, c.PaletteReadResets()...)
 			return obs
 		},
 	}
@@ -105,6 +111,11 @@ func init() {
 			obs = append(obs, c.TagDispatch("chat")...)
 			obs = append(obs, c.JSONCustomCodec()...)
 			obs = append(obs, c.TranslateArgTypes()...)
+			obs = append(obs, c.OptFlags("chat")...)
+			obs = append(obs, c.RuneTruncation("chat")...)
+			obs = append(obs, c.ShortFormCoversFields("chat")...)
+			obs = append(obs, c.StringIndexGuards(pkgPred("chat"))...)
+			obs = append(obs, c.LenMinusGuards(pkgPred("chat"))...)
 			return obs
 		},
 	}
